@@ -119,7 +119,7 @@ def _compile(chunk, scalar, opts, skipped):
 
 def _run(orc, meas, skipped, idx, it, r, progs, mod, k):
     scalar = it["scalar"]
-    cx = scalar.startswith("complex")
+    cx = scalar.startswith("complex") and not it.get("realdata")
     rnd = random.Random(it["seed"] * 7919 + 13)
     gkind = it.get("case", {}).get("geom", it.get("geom", "affine"))
     for prog in progs:
